@@ -1531,10 +1531,35 @@ def check_einsum_printers(ctx: Check, tree: Tree) -> None:
                     f"{cls_name}._numpycode == einsum(<contraction for n tensors>, <all n printed arguments in order>)", problems or None)
 
 
+def check_operand_multiset(ctx: Check, tree: Tree) -> None:
+    """R-OPERANDS: the operands of a contraction are a sequence - the same expression may occur twice (a rotation
+    applied twice).  Along ``_numpycode`` of the two multiplication classes and the package functions that receive
+    ``self.args`` from them, the operands are never collapsed to the distinct ones (set, dict keyed by the operand)
+    and then read back as a collection.  A memo that is only looked up / membership-tested is fine."""
+    from .c18 import M_POOL, multiset_scan
+
+    work = []
+    for cls_name in ("ArrayMultiplication", "MatrixMultiplication"):
+        cls = tree.cls(f"ampform.sympy._array_expressions::{cls_name}")
+        fn = tree.lookup_method(cls, "_numpycode")
+        if fn is None:
+            raise AnalysisError(f"vanished anchor: {cls_name}._numpycode")
+        work.append((fn, {}))
+    results, seen, _ = multiset_scan(tree, work, {"self.args": M_POOL, "self._args": M_POOL}, None)
+    if len(seen) < 2:
+        raise AnalysisError("R-OPERANDS: fewer than the two confirmed printer methods were read")
+    for fn, findings, counting in results:
+        if findings and counting:
+            raise AnalysisError(f"{fn.qual}: operands are collapsed to the distinct ones and counted - cannot decide whether repeated operands are restored")
+        ctx.verdict(not findings, "R-OPERANDS", f"{fn.qual}::operand-multiset", tree.loc(findings[0][0] if findings else fn.node),
+                    f"{fn.qual}: the operands of the contraction are never collapsed to the distinct ones", [t for _, t in findings] or None)
+
+
 def run(ctx: Check, tree: Tree) -> None:
     ctx.decided += [
         "R-PREC: templates of the kinematics / array printers never put an unparenthesised printed sub-expression next to a tighter-binding operator",
         "R-EINSUM: the code Array/MatrixMultiplication generate for 1..4 operands, read as a tensor network (bare tensor, one einsum or nested einsums, contraction strings evaluated), is the ordered chain T0.T1...T(n-1) over all printed arguments with the batch axis `...` on every operand",
+        "R-OPERANDS: along the einsum printers and the package functions that receive their operands, the operand sequence is never collapsed to the distinct operands (set / dict key read back as a collection)",
         "R-PRINT: every value written into generated code by the printer methods passes printer._print (or is a literal / class-level literal); helpers (methods, module functions, nested functions, lambdas, generators) are followed with their parameters bound to the kinds of the arguments",
         "R-TERM: as_explicit() (literal, sp.eye/sp.diag + item assignment, entries taken from evaluate()) == matrix laid out by the generated numpy code (printer method run on an abstract printer, text parsed) for the arguments evaluate() passes (BoostZ, RotationY, RotationZ, Boost: 4x16 entries); metric; NegativeMomentum = eta·p",
         "R-LORENTZ: R^T eta R = eta for both rotations (mod cos^2+sin^2=1), B_z^T eta B_z = eta, handedness / direction roles; the general boost after unfolding beta_i = p_i/E, B(p)p = (m,0,0,0), symmetry",
@@ -1551,6 +1576,7 @@ def run(ctx: Check, tree: Tree) -> None:
         ctx.section(check_lorentz, ctx, tree, mats)
         ctx.section(check_general_boost, ctx, tree, mats)
     ctx.section(check_einsum_printers, ctx, tree)
+    ctx.section(check_operand_multiset, ctx, tree)
     from .c14 import check_precedence
 
     ctx.section(check_precedence, ctx, tree, prefixes=("ampform.kinematics", "ampform.sympy._array_expressions"))
